@@ -53,6 +53,17 @@ class Val:
         return (self.vn, self.lo, self.hi, self.sym)
 
 
+class Rel(frozenset):
+    """relational facts {(vn_a, vn_b)}: value a <= value b; lives in the state under Ranges.REL"""
+    vn = None
+    lo = None
+    hi = None
+    sym = None
+
+    def key(self):
+        return ("rel", tuple(sorted(map(repr, self))))
+
+
 def _join_val(a, b, fresh):
     if a is None or b is None:
         return None
@@ -197,6 +208,33 @@ class Ranges:
         lo, hi = self._clip(lo, hi, ty)
         return Val(vn, lo, hi)
 
+    # ---- value ids are (re)defined at their site: nothing recorded about the previous value
+    # of that id may survive (loops execute a site again)
+    REL = "__rel"
+
+    def _kill_vn(self, st, vn, keep=None):
+        for k, v in list(st.items()):
+            if k == self.REL or v is None or k == keep:
+                continue
+            if v.vn == vn:
+                st[k] = Val(("stale", vn, k), v.lo, v.hi, v.sym)
+                v = st[k]
+            if v.sym and v.sym[0] == "cmp" and (v.sym[2][0] == vn or v.sym[3][0] == vn):
+                st[k] = Val(v.vn, v.lo, v.hi, None)
+        rel = st.get(self.REL)
+        if rel:
+            st[self.REL] = Rel(f for f in rel if f[0] != vn and f[1] != vn)
+
+    def _le(self, st, a_vn, b_vn):
+        """is value a <= value b known (relational facts from branches)?"""
+        rel = st.get(self.REL) or ()
+        return a_vn == b_vn or (a_vn, b_vn) in rel
+
+    def _add_rel(self, st, a_vn, b_vn):
+        ok = lambda vn: isinstance(vn, tuple) and vn and vn[0] in ("param", "d", "phi")
+        if ok(a_vn) and ok(b_vn) and a_vn != b_vn:
+            st[self.REL] = Rel(set(st.get(self.REL) or ()) | {(a_vn, b_vn)})
+
     # ---- transfer
     def _assign(self, st, place, rv, site):
         k = self._key(place)
@@ -208,6 +246,8 @@ class Ranges:
         dest_ty = self._lty(place["l"]) if not place["p"] else None
         kind = rv["k"]
         v = None
+        for vn_ in (("d", site), ("d", site, 0), ("d", site, 1), ("raw", site), ("u", site), ("c", site)):
+            self._kill_vn(st, vn_)
         if kind == "use":
             v = self._eval(st, rv["op"], site)
         elif kind == "binop":
@@ -218,8 +258,10 @@ class Ranges:
                 m = re.match(r"^\((\w+), bool\)$", tyl)
                 a_ty = m.group(1) if m else None
                 r = self._binop(st, rv, site, None)
+                oa = self._eval(st, rv["a"], site + ("a",))
+                ob = self._eval(st, rv["b"], site + ("b",))
                 # exact (unclipped) result for the overflow test, clipped result for .0
-                st[(place["l"], "raw")] = Val(("raw", site), r.lo, r.hi, ("ty", a_ty))
+                st[(place["l"], "raw")] = Val(("raw", site), r.lo, r.hi, ("ty", a_ty, rv["op"].replace("WithOverflow", ""), oa.vn, ob.vn))
                 if r.lo is not None and r.hi is not None:
                     lo, hi = self._clip(r.lo, r.hi, a_ty)
                 else:
@@ -286,6 +328,7 @@ class Ranges:
             return
         fn = (t.get("func") or {}).get("fn") or {}
         path = fn.get("path") or ""
+        self._kill_vn(st, ("d", site))
         args = [self._eval(st, a, site + (i,)) for i, a in enumerate(t.get("args") or [])]
         ty = self._lty(dest["l"]) if not dest["p"] else None
         v = None
@@ -407,6 +450,7 @@ class Ranges:
                     ok &= self._refine_vn(st, B[0], None, bhi - 1)
         elif op in ("Lt", "Le"):
             d = 1 if op == "Lt" else 0
+            self._add_rel(st, A[0], B[0])
             if bhi is not None:
                 ok &= self._refine_vn(st, A[0], None, bhi - d)
             if alo is not None:
@@ -415,6 +459,7 @@ class Ranges:
                 ok = False
         elif op in ("Gt", "Ge"):
             d = 1 if op == "Gt" else 0
+            self._add_rel(st, B[0], A[0])
             if blo is not None:
                 ok &= self._refine_vn(st, A[0], blo + d, None)
             if ahi is not None:
@@ -436,14 +481,16 @@ class Ranges:
             return "unknown"
         if v.sym and v.sym[0] == "ovf":
             raw = st.get((v.sym[1], "raw"))
-            if raw is None or raw.lo is None or raw.hi is None:
+            if raw is None or not raw.sym:
                 return "unknown"
-            r = ty_range(raw.sym[1]) if raw.sym else None
+            r = ty_range(raw.sym[1])
             if r is None:
                 return "unknown"
-            inside = r[0] <= raw.lo and raw.hi <= r[1]
-            if inside:
+            if raw.lo is not None and raw.hi is not None and r[0] <= raw.lo and raw.hi <= r[1]:
                 return "holds" if not expected else "fails"
+            # unsigned a - b with b <= a established by a branch (`if left <= issued { issued - left }`)
+            if raw.sym[2] == "Sub" and r[0] == 0 and not expected and self._le(st, raw.sym[4], raw.sym[3]):
+                return "holds"
             return "unknown"
         if v.sym and v.sym[0] == "cmp":
             s1 = dict(st)
@@ -563,6 +610,9 @@ class Ranges:
             va, vb = a[k], b[k]
             if va is None or vb is None:
                 continue
+            if k == self.REL:
+                out[k] = Rel(set(va) & set(vb))
+                continue
             j = _join_val(va, vb, ("phi", bi, k))
             if j is not None:
                 if j.vn == ("phi", bi, k):
@@ -575,6 +625,9 @@ class Ranges:
         for k, v in new.items():
             o = old.get(k)
             if v is None or o is None:
+                continue
+            if k == self.REL:
+                out[k] = Rel(set(v) & set(o))
                 continue
             lo, hi = v.lo, v.hi
             if o.lo is None or (lo is not None and lo < o.lo):
@@ -630,6 +683,8 @@ class Ranges:
                 # a value id once merged at this block stays merged (keeps the iteration monotone)
                 new = {k: (Val(("phi", succ, k), v.lo, v.hi, v.sym if v.sym and v.sym[0] == "arr" else None) if (succ, k) in self.sticky and v.vn != ("phi", succ, k) else v)
                        for k, v in new.items() if v is not None}
+                for k_ in [k_ for k_, v_ in new.items() if k_ != self.REL and v_.vn == ("phi", succ, k_)]:
+                    self._kill_vn(new, ("phi", succ, k_), keep=k_)
                 old = self.inn.get(succ)
                 if old is None:
                     self.inn[succ] = new
